@@ -26,6 +26,10 @@ THEOREMS = [
     "RedunModel.C16.partial_top_set_unorderable",
     "RedunModel.C16.pySorted_typeError_perm",
     "RedunModel.C16.nonset_hash_eq_iff",
+    "RedunModel.C16.getHash_of_not_setLike",
+    "RedunModel.C16.set_subclass_uses_set_proxy",
+    "RedunModel.C16.partial_top_setsub_str",
+    "RedunModel.C16.fset_subclass_sensitive",
     "RedunModel.C16.recordValue_eq_getHash",
     "RedunModel.C16.recorded_top_set_str",
     "RedunModel.C16.refuted_nested_list",
@@ -60,7 +64,8 @@ TRUSTED = [
 ]
 ASSUMPTIONS = [
     "values: None, bool, int, str, bytes, list, tuple, dict (insertion order fixed: it is part of what is pickled and the property "
-    "does not quantify over it), set, frozenset, dataclass instances (also with non-field __dict__ entries), floats (no NaN; a "
+    "does not quantify over it), set, frozenset, instances of subclasses of set / frozenset / list / dict / tuple / str / int (top level "
+    "and nested), dataclass instances (also with non-field __dict__ entries), floats (no NaN; a "
     "top-level set containing floats is hashed for the oracle but sorted() on floats is not modelled), no two `==`-equal elements offered to one set "
     "(e.g. 1 and True), no Value subclasses with their own get_hash (File etc. are C30)",
     "'the same value' = same specification built by the same code in every process, with the elements of every set/frozenset "
@@ -82,7 +87,8 @@ RULE = ("value specifications generated from one PRNG (scalars, nested list/tupl
         "real RedunBackendDb.record_value(value), and (witnesses, corpus, first generated values) Argument.value_hash and "
         "CallNode.value_hash recorded by a real Scheduler for the call ident(value). Correspondence: pre-image <-> hash must be a "
         "bijection over ALL observed layouts and the first three ways (so the model predicts exactly "
-        "which values are order sensitive). Same value, different object sharing: lists/tuples holding one row object several times ([row] * n, nested, numbers as "
+        "which values are order sensitive). The hash is taken once more after record_value (which makes the registry resolve and memoise the proxy of the type). "
+        "Same value, different object sharing: lists/tuples holding one row object several times ([row] * n, nested, numbers as "
         "leaves) go through the real task call next to the equal value built without sharing; the scheduler-recorded hashes "
         "(Argument.value_hash, CallNode.value_hash, CallNode.args_hash) must be equal. "
         "Oracle: all runs of one value must give one hash, for each of the five ways; the ways agree inside one process; look-alikes with "
@@ -104,7 +110,10 @@ LEVEL_TEXT = (
     "digests and hashes the same under every layout provided every element has a single layout and distinct elements have "
     "distinct digests; refuted_unorderable_with_frozenset: {frozenset({a,b}), 1} is still order sensitive, for every digest "
     "function), nonset_hash_eq_iff (anything that is not a top-level set is hashed as laid out: equal hash iff "
-    "equal layout - this characterises exactly the order-sensitive values), recordValue_eq_getHash (the hash record_value stores, "
+    "equal layout - this characterises exactly the order-sensitive values), set_subclass_uses_set_proxy / partial_top_setsub_str (the registry resolves the proxy along the MRO: an instance of a subclass of "
+    "set is hashed by the Set proxy exactly like the exact set, so it is layout independent under the same conditions), "
+    "fset_subclass_sensitive (subclasses of the other builtins have no proxy and are pickled as laid out), "
+    "recordValue_eq_getHash (the hash record_value stores, "
     "get_hash(data=serialize()) - Set.get_hash ignores `data` - is the hash get_hash computes, so all of the above also speaks "
     "about the recorded Argument/CallNode/Value hashes; recorded_top_set_str). Tie: real hashes from fresh interpreters with "
     "different PYTHONHASHSEED and permuted insertion orders vs. model pre-images, bijection over all observed layouts; the "
